@@ -21,19 +21,19 @@ func hook(level, format string, a []interface{}) {
 	}
 }
 
-func (nopLogger) SetLevel(name, level string) error                         { return nil }
-func (nopLogger) Debug(format string, a ...interface{}) error               { return nil }
-func (nopLogger) Trace(format string, a ...interface{}) error               { return nil }
-func (nopLogger) Notice(format string, a ...interface{}) error              { return nil }
-func (nopLogger) Warn(format string, a ...interface{}) error                { hook("warn", format, a); return nil }
-func (nopLogger) Fatal(format string, a ...interface{}) error               { hook("fatal", format, a); return nil }
-func (nopLogger) Debugx(logID, format string, a ...interface{}) error       { return nil }
-func (nopLogger) Tracex(logID, format string, a ...interface{}) error       { return nil }
-func (nopLogger) Noticex(logID, format string, a ...interface{}) error      { return nil }
-func (nopLogger) Warnx(logID, format string, a ...interface{}) error        { return nil }
-func (nopLogger) Fatalx(logID, format string, a ...interface{}) error       { return nil }
-func (nopLogger) Close()                                                    {}
-func (nopLogger) Dropped(i int) uint64                                      { return 0 }
+func (nopLogger) SetLevel(name, level string) error                    { return nil }
+func (nopLogger) Debug(format string, a ...interface{}) error          { return nil }
+func (nopLogger) Trace(format string, a ...interface{}) error          { return nil }
+func (nopLogger) Notice(format string, a ...interface{}) error         { return nil }
+func (nopLogger) Warn(format string, a ...interface{}) error           { hook("warn", format, a); return nil }
+func (nopLogger) Fatal(format string, a ...interface{}) error          { hook("fatal", format, a); return nil }
+func (nopLogger) Debugx(logID, format string, a ...interface{}) error  { return nil }
+func (nopLogger) Tracex(logID, format string, a ...interface{}) error  { return nil }
+func (nopLogger) Noticex(logID, format string, a ...interface{}) error { return nil }
+func (nopLogger) Warnx(logID, format string, a ...interface{}) error   { return nil }
+func (nopLogger) Fatalx(logID, format string, a ...interface{}) error  { return nil }
+func (nopLogger) Close()                                               {}
+func (nopLogger) Dropped(i int) uint64                                 { return 0 }
 
 type detRand struct{ x uint64 }
 
